@@ -237,42 +237,102 @@ func c11ModePlumbing(w *World, r *Report) {
 	root := w.Pkg("")
 	g, _ := root.Members["openModeOptions"].(*ssa.Global)
 	ro, _ := root.Members["ReadOnly"].(*ssa.NamedConst)
-	if g == nil || ro == nil {
-		fatalf("C11-c: anchors openModeOptions / ReadOnly not found in package diskfs")
+	// the mode -> open flags table: the map openModeOptions, or a function of the mode returning the flags
+	var flagFn *ssa.Function
+	if g == nil {
+		for _, fn := range w.ModFns {
+			if w.pkgOf(fn) != "" || fn.Blocks == nil || fn.Name() == "String" || len(fn.Params) == 0 || fn.Signature.Results().Len() == 0 {
+				continue
+			}
+			pn := namedOf(fn.Params[0].Type())
+			rb, isB := fn.Signature.Results().At(0).Type().Underlying().(*types.Basic)
+			if pn != nil && pn.Obj().Name() == "OpenModeOption" && isB && rb.Kind() == types.Int {
+				flagFn = fn
+			}
+		}
+	}
+	if (g == nil && flagFn == nil) || ro == nil {
+		fatalf("C11-c: anchors not found in package diskfs: neither the map openModeOptions nor a function from OpenModeOption to open flags, or no ReadOnly constant")
+	}
+	isFlagSource := func(v ssa.Value) bool {
+		for _, rt := range w.prov(v, provOpts{}).Roots {
+			if g != nil && rt.Kind == RGlobal && rt.Val == ssa.Value(g) {
+				return true
+			}
+			if flagFn != nil && rt.Kind == RCall && rt.Fn == flagFn {
+				return true
+			}
+		}
+		return false
 	}
 	initFn := root.Func("init")
 	// map literal entries
 	found := false
-	allInstrs(initFn, func(ins ssa.Instruction) {
-		mu, ok := ins.(*ssa.MapUpdate)
-		if !ok {
-			return
-		}
-		// is this the map stored into openModeOptions?
-		stored := false
-		for _, ref := range *mu.Map.Referrers() {
-			if st, ok := ref.(*ssa.Store); ok && st.Addr == ssa.Value(g) {
-				stored = true
+	roVal0, _ := constant.Int64Val(ro.Value.Value)
+	if flagFn != nil {
+		// the flags returned on the edge where the mode equals ReadOnly
+		for _, ret := range returnsOf(flagFn) {
+			v, isC := constInt(ret.Results[0])
+			if !isC {
+				continue
+			}
+			for _, b := range flagFn.Blocks {
+				iff, ok := lastInstr(b).(*ssa.If)
+				if !ok {
+					continue
+				}
+				x, y, eqIdx, ok := eqEdge(iff)
+				if !ok {
+					continue
+				}
+				var k int64
+				var isK bool
+				if stripConv(x) == ssa.Value(flagFn.Params[0]) {
+					k, isK = constInt(y)
+				} else if stripConv(y) == ssa.Value(flagFn.Params[0]) {
+					k, isK = constInt(x)
+				}
+				if !isK || k != roVal0 || !edgeDominates(b, eqIdx, ret.Block()) {
+					continue
+				}
+				found = true
+				r.Check(v&(oWRONLY|oRDWR) == 0, "C11-c", fnName(flagFn), "open flags for ReadOnly have no write bit", w.relFile(instrPos(ret)),
+					fmt.Sprintf("flags=%#x", v), fmt.Sprintf("ReadOnly maps to open flags %#x which include a write bit", v))
 			}
 		}
-		if !stored {
-			return
-		}
-		k, ok1 := constInt(mu.Key)
-		v, ok2 := constInt(mu.Value)
-		if !ok1 || !ok2 {
-			r.Undecided("C11-c", "diskfs.init", "openModeOptions entry", w.relFile(instrPos(mu)), "non-constant map entry")
-			return
-		}
-		roVal, _ := constant.Int64Val(ro.Value.Value)
-		if k == roVal {
-			found = true
-			r.Check(v&(oWRONLY|oRDWR) == 0, "C11-c", "diskfs.init", "openModeOptions[ReadOnly] has no write bit", w.relFile(instrPos(mu)),
-				fmt.Sprintf("flags=%#x", v), fmt.Sprintf("ReadOnly maps to open flags %#x which include a write bit", v))
-		}
-	})
+	}
+	if g != nil {
+		allInstrs(initFn, func(ins ssa.Instruction) {
+			mu, ok := ins.(*ssa.MapUpdate)
+			if !ok {
+				return
+			}
+			// is this the map stored into openModeOptions?
+			stored := false
+			for _, ref := range *mu.Map.Referrers() {
+				if st, ok := ref.(*ssa.Store); ok && st.Addr == ssa.Value(g) {
+					stored = true
+				}
+			}
+			if !stored {
+				return
+			}
+			k, ok1 := constInt(mu.Key)
+			v, ok2 := constInt(mu.Value)
+			if !ok1 || !ok2 {
+				r.Undecided("C11-c", "diskfs.init", "openModeOptions entry", w.relFile(instrPos(mu)), "non-constant map entry")
+				return
+			}
+			roVal, _ := constant.Int64Val(ro.Value.Value)
+			if k == roVal {
+				found = true
+				r.Check(v&(oWRONLY|oRDWR) == 0, "C11-c", "diskfs.init", "openModeOptions[ReadOnly] has no write bit", w.relFile(instrPos(mu)),
+					fmt.Sprintf("flags=%#x", v), fmt.Sprintf("ReadOnly maps to open flags %#x which include a write bit", v))
+			}
+		})
+	}
 	if !found {
-		r.Fail("C11-c", "diskfs.init", "openModeOptions[ReadOnly] has no write bit", w.relFile(g.Pos()), "no constant entry for ReadOnly found")
+		r.Fail("C11-c", "diskfs.init", "openModeOptions[ReadOnly] has no write bit", "diskfs.go", "no constant entry for ReadOnly found")
 	}
 	// writableMode: `return true` only behind m&writeBit != 0
 	wm := root.Func("writableMode")
@@ -302,17 +362,67 @@ func c11ModePlumbing(w *World, r *Report) {
 		if !ok || zero != 0 {
 			return false
 		}
-		for _, rt := range w.prov(and.X, provOpts{}).Roots {
-			if rt.Kind == RGlobal && rt.Val == ssa.Value(g) {
-				nTests++
-				return true
-			}
+		if isFlagSource(and.X) {
+			nTests++
+			return true
 		}
 		return false
 	})
+	// the same exploration, edge by edge, to evaluate a returned boolean expression (`return ok && (m&W != 0 || ...)`)
+	isWriteBitTest := func(v ssa.Value) bool {
+		bin, isBin := v.(*ssa.BinOp)
+		if !isBin || bin.Op != token.NEQ {
+			return false
+		}
+		and, isAnd := bin.X.(*ssa.BinOp)
+		if !isAnd || and.Op != token.AND {
+			return false
+		}
+		mask, ok := constInt(and.Y)
+		zero, ok2 := constInt(bin.Y)
+		return ok && ok2 && zero == 0 && mask != 0 && mask&^(oWRONLY|oRDWR) == 0 && isFlagSource(and.X)
+	}
+	var canBeTrue func(v ssa.Value, d int) bool
+	canBeTrue = func(v ssa.Value, d int) bool {
+		if d > 8 {
+			return true
+		}
+		switch x := v.(type) {
+		case *ssa.Const:
+			return x.Value != nil && constant.BoolVal(x.Value)
+		case *ssa.BinOp:
+			if isWriteBitTest(x) {
+				return false // assumed false in this exploration
+			}
+			return true
+		case *ssa.Phi:
+			for k, e := range x.Edges {
+				pred := x.Block().Preds[k]
+				if !feasible[pred] && pred != wm.Blocks[0] {
+					continue
+				}
+				// the edge pred -> phi block is refused when it is the true edge of a write-bit test
+				if iff, ok := lastInstr(pred).(*ssa.If); ok && isWriteBitTest(iff.Cond) && pred.Succs[0] == x.Block() {
+					continue
+				}
+				if canBeTrue(e, d+1) {
+					return true
+				}
+			}
+			return false
+		}
+		return true
+	}
 	for _, ret := range returnsOf(wm) {
 		c, ok := ret.Results[0].(*ssa.Const)
 		if ok && c.Value != nil && !constant.BoolVal(c.Value) {
+			continue
+		}
+		if !ok {
+			// a boolean expression: it must evaluate to false when every write-bit test is false
+			good := nTests > 0 && !canBeTrue(ret.Results[0], 0)
+			r.Check(good, "C11-c", fnName(wm), "true only behind a write-bit test", w.relFile(instrPos(ret)),
+				"the returned expression is false when the mode's flags & (O_RDWR|O_WRONLY) tests are false", "writableMode can report true without the mode's flags carrying a write bit")
 			continue
 		}
 		good := nTests > 0 && !feasible[ret.Block()]
@@ -339,16 +449,17 @@ func c11ModePlumbing(w *World, r *Report) {
 		// the same mode selects the open flags
 		for _, oc := range calls(open, false, func(c ssa.CallInstruction) bool { return isStdCall(c, "os.OpenFile") }) {
 			fl := oc.Common().Args[1]
-			pf := w.prov(fl, provOpts{})
-			same := false
-			for _, rt := range pf.Roots {
-				if rt.Kind == RGlobal && rt.Val == ssa.Value(g) {
-					same = true
-				}
-			}
-			// the Lookup index must be the same mode value
+			same := isFlagSource(fl)
+			// the Lookup index / the function's argument must be the same mode value
 			if lk := findLookup(fl); lk != nil && modeVal != nil {
 				same = same && sameRootValue(w, lk.Index, modeVal)
+			}
+			if flagFn != nil && modeVal != nil {
+				for _, rt := range w.prov(fl, provOpts{}).Roots {
+					if rt.Kind == RCall && rt.Fn == flagFn && rt.Call != nil && len(rt.Call.Common().Args) > 0 {
+						same = same && sameRootValue(w, rt.Call.Common().Args[0], modeVal)
+					}
+				}
 			}
 			r.Check(same, "C11-c", fnName(open), "open flags = openModeOptions[mode]", w.relFile(oc.Pos()), "", "os.OpenFile flags do not come from openModeOptions[mode] for the same mode")
 		}
